@@ -1,7 +1,8 @@
 (* docutils doctree with identity labels: every node carries the allocation number of the
    Python object, so that "occurs once" is NoDup (oids tree). *)
 From Coq Require Import List NArith Bool.
-From MV Require Import Base.PyStr Doc.Str.
+From MV Require Import Base.PyStr.
+From MV Require Import Doc.Str.
 Import ListNotations.
 Open Scope list_scope.
 Open Scope N_scope.
@@ -13,7 +14,8 @@ Inductive node : Type :=
 | Elem (oid : N) (tag : str) (a : nattrs) (cs : list node).
 
 Definition oid_of (n : node) : N := match n with Text o _ => o | Elem o _ _ _ => o end.
-Definition tag_of (n : node) : str := match n with Text _ _ => lit "#text" | Elem _ t _ _ => t end.
+Definition k_text_tag : str := Eval vm_compute in lit "#text".
+Definition tag_of (n : node) : str := match n with Text _ _ => k_text_tag | Elem _ t _ _ => t end.
 Definition kids_of (n : node) : list node := match n with Text _ _ => [] | Elem _ _ _ cs => cs end.
 Definition attrs_of (n : node) : nattrs := match n with Text _ _ => [] | Elem _ _ a _ => a end.
 
